@@ -272,6 +272,11 @@ class Elem:
             base = self.expr(e.value)
             sl = e.slice
             elts = sl.elts if isinstance(sl, ast.Tuple) else [sl]
+            cs = getattr(self, "component_symbols", None)
+            if cs is not None and len(elts) == 2 and isinstance(elts[0], ast.Slice) and elts[0].lower is None and elts[0].upper is None \
+                    and isinstance(elts[1], ast.Constant) and elts[1].value in (0, 1, 2) and hasattr(base, "has") and base.has(cs[0]):
+                # column k of a (components, 3) table: the generic component exponent becomes the x / y / z exponent
+                return base.subs(cs[0], cs[1][elts[1].value])
             if all(isinstance(x, ast.Slice) or (isinstance(x, ast.Constant) and (x.value is None or x.value is Ellipsis or isinstance(x.value, int)))
                    or (isinstance(x, ast.UnaryOp) and isinstance(x.op, ast.USub) and isinstance(x.operand, ast.Constant))
                    or (isinstance(x, ast.Attribute) and x.attr == "newaxis") for x in elts):
